@@ -561,6 +561,7 @@ static void bufr_merge_tableD ( EntryTableDArray table1, EntryTableDArray table2
    EntryTableD *e1, *e2;
    EntryTableD **pe;
    int   count, i;
+   int   count1, j;
    int   len2;
 
    count = arr_count( table2 );
@@ -571,12 +572,22 @@ static void bufr_merge_tableD ( EntryTableDArray table1, EntryTableDArray table2
       if (e2)
          {
          len2 = e2->description ? strlen( e2->description ) : 0 ;
-         e1 = bufr_tabled_fetch_entry( table1, e2->descriptor );
-         if (e1)
+/*
+ * table1 is no longer sorted once an entry has been appended to it: no binary search here;
+ * every entry of the descriptor is replaced
+ */
+         e1 = NULL;
+         count1 = arr_count( table1 );
+         for (j = 0; j < count1 ; j++)
             {
-            bufr_copy_EntryTableD( e1, e2->description,  len2, e2->descriptors, e2->count );
+            pe = (EntryTableD **)arr_get( table1, j );
+            if (pe && *pe && ((*pe)->descriptor == e2->descriptor))
+               {
+               e1 = *pe;
+               bufr_copy_EntryTableD( e1, e2->description,  len2, e2->descriptors, e2->count );
+               }
             }
-         else
+         if (e1 == NULL)
             {
             e1 = bufr_new_EntryTableD( e2->descriptor, e2->description, len2, e2->descriptors, e2->count );
             arr_add( table1, (char *)&e1 );
@@ -600,6 +611,7 @@ static void bufr_merge_tableB ( EntryTableBArray table1, EntryTableBArray table2
    EntryTableB *e1, *e2;
    EntryTableB **pe;
    int   count, i;
+   int   count1, j;
 
    count = arr_count( table2 );
    for (i = 0; i < count ; i++)
@@ -608,12 +620,22 @@ static void bufr_merge_tableB ( EntryTableBArray table1, EntryTableBArray table2
       e2 = (pe)? *pe : NULL;
       if (e2)
          {
-         e1 = bufr_tableb_fetch_entry( table1, e2->descriptor );
-         if (e1)
+/*
+ * table1 is no longer sorted once an entry has been appended to it: no binary search here;
+ * every entry of the descriptor is replaced
+ */
+         e1 = NULL;
+         count1 = arr_count( table1 );
+         for (j = 0; j < count1 ; j++)
             {
-            bufr_copy_EntryTableB( e1, e2 );
+            pe = (EntryTableB **)arr_get( table1, j );
+            if (pe && *pe && ((*pe)->descriptor == e2->descriptor))
+               {
+               e1 = *pe;
+               bufr_copy_EntryTableB( e1, e2 );
+               }
             }
-         else
+         if (e1 == NULL)
             {
             e1 = bufr_new_EntryTableB();
             bufr_copy_EntryTableB( e1, e2 );
